@@ -67,7 +67,7 @@ impl Prop for C02 {
 
     fn gen_cases(&self, tier: Tier) -> u64 {
         match tier {
-            Tier::Quick => 24_000,
+            Tier::Quick => 60_000,
             Tier::Thorough => 800_000,
         }
     }
@@ -122,8 +122,11 @@ impl Prop for C02 {
             Tier::Quick => 1.0,
             Tier::Thorough => 2.0,
         };
-        let a = vrender::render(&c.src, scale);
-        let b = vrender::render(&out, scale);
+        // the renderer itself may panic on extreme documents (glyph rasterisation overflow): that is
+        // neither side's fault and not comparable
+        let ra = std::panic::catch_unwind(|| vrender::render(&c.src, scale));
+        let rb = std::panic::catch_unwind(|| vrender::render(&out, scale));
+        let (Ok(a), Ok(b)) = (ra, rb) else { return Verdict::skip("typst-renderer-panicked") };
         static N: std::sync::atomic::AtomicUsize = std::sync::atomic::AtomicUsize::new(0);
         if N.fetch_add(1, std::sync::atomic::Ordering::Relaxed) % 64 == 63 {
             vrender::evict(4);
